@@ -122,6 +122,12 @@ func runC08(res *lib.Result, tier string, seed int64, args []string) error {
 		if len(files) == 0 {
 			disk["f0.lua"], files["f0.lua"] = 0, c08Variant(0, 0)
 		}
+		if hi%8 == 1 {
+			delete(disk, "sub/f2.lua")
+			delete(files, "sub/f2.lua")
+			disk["f0.lua"], files["f0.lua"] = 0, c08Variant(0, 0)
+			disk["f1.lua"], files["f1.lua"] = 5, c08Variant(1, 5) // require("sub.f2")
+		}
 		if hi%8 == 5 {
 			// every file declares a class and uses the next one's... here: all files exist, file x declares, x-1 uses
 			for i, n := range names {
@@ -224,6 +230,10 @@ func runC08(res *lib.Result, tier string, seed int64, args []string) error {
 		// file, then another file is edited cleanly and saved (the workspace is clean again at that event)
 		type scripted struct{ i, k, v int }
 		var script []scripted
+		if hi%8 == 1 {
+			// a module required by its dotted path (sub.f2) is created while the requiring file shows "not found"
+			script = []scripted{{2, 9, 0}}
+		}
 		if hi%8 == 5 {
 			// a file that declares an annotation class is deleted while another file uses the class
 			x := 2 // variants [10, 11, 10]: f1 uses the class f2 declares
@@ -239,7 +249,7 @@ func runC08(res *lib.Result, tier string, seed int64, args []string) error {
 			}
 			script = []scripted{{a, 0, 0}, {a, 2, []int{1, 6, 7}[r.Intn(3)]}, {a, 7, 0}, {b, 0, 0}, {b, 2, []int{0, 8}[r.Intn(2)]}, {b, 5, 0}}
 		}
-		if hi%8 == 5 {
+		if hi%8 == 5 || hi%8 == 1 {
 			nEv = r.Intn(2) // the comparison with a fresh server follows (almost) directly
 		} else if hi%3 == 1 {
 			nEv = 1 + r.Intn(4) // short histories: the state right after an event is compared with a fresh server
@@ -252,7 +262,7 @@ func runC08(res *lib.Result, tier string, seed int64, args []string) error {
 			if e < len(script) {
 				i, k, forceV = script[e].i, script[e].k, script[e].v
 				n = names[i]
-				if _, exists := disk[n]; !exists {
+				if _, exists := disk[n]; !exists && k != 9 {
 					continue
 				}
 			}
